@@ -379,6 +379,28 @@ impl<'a, 'tcx> BodyCx<'a, 'tcx> {
                             }
                         }
                     }
+                    // promoted `&<small struct>` constants (e.g. `&DAY` for `DAY.as_secs()`): the pointee's bytes
+                    if let (ty::Ref(_, inner, _), rustc_middle::mir::interpret::Scalar::Ptr(ptr, _)) = (ty.kind(), s) {
+                        if matches!(inner.kind(), ty::Adt(..)) {
+                            if let Ok(layout) = tcx.layout_of(self.tenv.as_query_input(*inner)) {
+                                let size = layout.size.bytes() as usize;
+                                let (prov, off) = ptr.into_raw_parts();
+                                if let Some(rustc_middle::mir::interpret::GlobalAlloc::Memory(a)) = tcx.try_get_global_alloc(prov.alloc_id()) {
+                                    let a = a.inner();
+                                    let start = off.bytes() as usize;
+                                    if size > 0 && size <= 32 && start + size <= a.len() {
+                                        let bytes = a.inspect_with_uninit_and_ptr_outside_interpreter(start..start + size);
+                                        let hex: String = bytes.iter().map(|b| format!("{:02x}", b)).collect();
+                                        o.push(("ref_hex", J::s(hex)));
+                                        if let rustc_abi::FieldsShape::Arbitrary { offsets, .. } = &layout.fields {
+                                            let offs: Vec<J> = offsets.iter().map(|x| J::Int(x.bytes() as i128)).collect();
+                                            o.push(("foff", J::Arr(offs)));
+                                        }
+                                    }
+                                }
+                            }
+                        }
+                    }
                     if let Ok(si) = s.try_to_scalar_int() {
                         let size = si.size();
                         let bits = si.to_bits(size);
@@ -435,6 +457,15 @@ impl<'a, 'tcx> BodyCx<'a, 'tcx> {
                             if size > 0 && start + size <= a.len() {
                                 let bytes = a.inspect_with_uninit_and_ptr_outside_interpreter(start..start + size);
                                 o.push(("allzero", J::Bool(bytes.iter().all(|b| *b == 0))));
+                                if size <= 32 {
+                                    // small aggregate constants (a named Duration, ...): the bytes and the field offsets
+                                    let hex: String = bytes.iter().map(|b| format!("{:02x}", b)).collect();
+                                    o.push(("hex", J::s(hex)));
+                                    if let rustc_abi::FieldsShape::Arbitrary { offsets, .. } = &layout.fields {
+                                        let offs: Vec<J> = offsets.iter().map(|x| J::Int(x.bytes() as i128)).collect();
+                                        o.push(("foff", J::Arr(offs)));
+                                    }
+                                }
                             }
                         }
                     }
